@@ -66,6 +66,7 @@ type Ctx struct {
 	localExact map[*ssa.Alloc]bool
 	allocRefs []string
 	dbg       map[string][]ssa.Value // source var name -> values (DebugRef)
+	dbgObj    map[ssa.Value]types.Object // value -> the source variable it was recorded for
 	paramVals map[string]*Val
 	callSeq   map[string]int
 	oblSeq    map[string]int
